@@ -110,4 +110,8 @@ theorem guarded_setattr_changes_nothing (s : St) (c : Ctx) (args : Bytes) (h : N
     (procSetattr s c args).1.fs = s.fs ∧ ∃ st b, (procSetattr s c args).2 = res st b ∧ st ≠ 0 :=
   procSetattr_guarded s c args h r1 r2 r3 sa guard h1 h2 h3 hg
 
+/-- READ and WRITE refuse a range only when offset + count leaves the 64-bit range (the model's `off + cnt ≥ u64Max`
+    test); a range that passes 2^63-1 from a valid offset is "beyond EOF" (regenerated from handleRead / handleWrite) -/
+theorem gen_range_guards : (Gen.readRangeGuardIsUint64 && Gen.writeRangeGuardIsUint64) = true := by decide
+
 end Props.C01
